@@ -36,6 +36,21 @@ func describe(p *Program, o *Outcome) string {
 	return sb.String()
 }
 
+// SopPanicInMerge: the child died of the nil dereference in btree.getCurrentItem reached from
+// refetchAndMergeModifications (the replay of a writer's actions on the refetched tree).
+func SopPanicInMerge(o *Outcome) bool {
+	e := o.ChildErr
+	return strings.Contains(e, "nil pointer dereference") && strings.Contains(e, "getCurrentItem") && strings.Contains(e, "refetchAndMerge")
+}
+
+func firstLines(s string, n int) string {
+	ls := strings.Split(s, "\n")
+	if len(ls) > n {
+		ls = ls[:n]
+	}
+	return strings.Join(ls, " | ")
+}
+
 func runTrouble(o *Outcome) string {
 	switch {
 	case o.ChildErr != "":
@@ -58,6 +73,9 @@ func runTrouble(o *Outcome) string {
 // returns nil and a fresh process reads exactly the union of the changes. A deviation is classified into
 // one of the reproduced defect classes only if it is exactly what that class produces on this input.
 func CheckC04(p *Program, o *Outcome) []Fail {
+	if SopPanicInMerge(o) {
+		return []Fail{{"merge-nil-deref-in-getCurrentItem", "the committing process died: " + firstLines(o.ChildErr, 3) + "; " + describe(p, o)}}
+	}
 	if t := runTrouble(o); t != "" {
 		return []Fail{{"c04:run-error", t + "; " + describe(p, o)}}
 	}
@@ -107,7 +125,7 @@ func CheckC04(p *Program, o *Outcome) []Fail {
 				classes["merge-get-then-shift"] = true
 			case wo.LockFailMerge && pat.ChangesExisting && strings.Contains(wo.CommitErr, "call detected conflict"):
 				classes["merge-self-item-lock-conflict"] = true
-			case wo.Merges >= 1 && pat.RemovesExisting && namesSuccessorOfRemoved(w, init, wo.CommitErr):
+			case wo.Merges >= 1 && pat.RemovesExisting && namesSuccessorOfRemoved(w, init, addedByOthers(p, i), wo.CommitErr):
 				// the replay looks for (or finds changed) the SUCCESSOR of a key this writer removed
 				classes["remove-inner-item-tracks-successor"] = true
 			case !wo.LockFailMerge && strings.Contains(wo.CommitErr, "call detected conflict") && successorClash(p, init, i):
@@ -230,7 +248,7 @@ func removedExisting(w *Writer, init map[int]int) []int {
 }
 
 // namesSuccessorOfRemoved: the merge error names the key that follows a key this writer removed.
-func namesSuccessorOfRemoved(w *Writer, init map[int]int, errText string) bool {
+func namesSuccessorOfRemoved(w *Writer, init map[int]int, others []int, errText string) bool {
 	if !(strings.Contains(errText, "failed to find item") || strings.Contains(errText, "detected a newer version")) {
 		return false
 	}
@@ -245,7 +263,45 @@ func namesSuccessorOfRemoved(w *Writer, init map[int]int, errText string) bool {
 			return true
 		}
 	}
+	// the replay runs on a REFETCHED tree: there the key that follows a removed key can be one that another
+	// writer added in the meantime (it is then the first key above k that is an initial key or such an added key,
+	// with no initial key in between)
+	for _, k := range removedExisting(w, init) {
+		if named <= k {
+			continue
+		}
+		between := false
+		for x := range init {
+			if x > k && x < named {
+				between = true
+			}
+		}
+		if between {
+			continue
+		}
+		for _, a := range others {
+			if a == named {
+				return true
+			}
+		}
+	}
 	return false
+}
+
+// addedByOthers: keys the other writers of the program insert.
+func addedByOthers(p *Program, i int) []int {
+	var out []int
+	for j := range p.Writers {
+		if j == i {
+			continue
+		}
+		for _, op := range p.Writers[j].Ops {
+			if op.Kind == "add" || op.Kind == "addne" || op.Kind == "upsert" {
+				out = append(out, op.Key)
+			}
+		}
+	}
+	return out
 }
 
 // successorClash: writer i is one of two writers A != B where A removes an existing key k and B touches succ(k).
@@ -304,6 +360,9 @@ func firstAdds(w *Writer, before map[int]int) map[int]int {
 // CheckC05 is the direct oracle of C05: the ordered scan of a unique store never shows two equal keys
 // (forward and backward), whatever happened to the commits.
 func CheckC05(p *Program, o *Outcome) []Fail {
+	if SopPanicInMerge(o) {
+		return nil // the writers' process died inside sop (a C04/C07 finding): nothing was observed about uniqueness
+	}
 	if t := runTrouble(o); t != "" {
 		return []Fail{{"c05:run-error", t + "; " + describe(p, o)}}
 	}
